@@ -83,6 +83,9 @@ def generate(rng, tier) -> dict:
         nints = rng.randint(1, max(1, min(4, n // 10)))
         nbins = rng.randint(1, max(1, min(16, n // (10 * nints))))
         sc["accel"] = _resolve_accel(rng, sc["accel"], n)
+        if rng.random() < 0.3:
+            # the series' header records an acceleration of its own (as after resample()); fold() is given ITS argument
+            sc["header_accel"] = _resolve_accel(rng, "big", n)
         sc.update({"n": n, "vseed": rng.randrange(1 << 16), "nbins": nbins, "nints": nints, "ops": [{"gulp": 1}]})
         if pulse:
             k = rng.randint(3, 12)
@@ -247,7 +250,10 @@ def execute(sc, ctx) -> None:
             ctx.probe("pulse-train")
         else:
             data = filgen.make_samples(sc["vseed"], n, 1, 8, "small")[:, 0].astype(np.float32)
-        hdr = base_header(ctx, 1).new_header({"nchans": 1, "nbits": 32, "tsamp": TSAMP, "nsamples": n, "data_type": "time series"})
+        hdr = base_header(ctx, 1).new_header({"nchans": 1, "nbits": 32, "tsamp": TSAMP, "nsamples": n, "data_type": "time series",
+                                              "accel": float(sc.get("header_accel", 0.0)), "dm": 12.5 if sc.get("header_accel") else 0.0})
+        if sc.get("header_accel"):
+            ctx.probe("header-carries-its-own-accel")
         sums, cnts, pbin, _ = cell_model(data[:, None], n, nbins, nints, 1, np.float32(hdr.tsamp), p32, a32, ctx)
         info = {"api": "TimeSeries.fold", "n": n, "ratio": sc["ratio"], "accel": sc["accel"], "nbins": nbins, "nints": nints}
 
